@@ -133,6 +133,15 @@ func runVario(sc M) {
 			r.inner.MkdirAll(dir, 0755)
 			lastPre = nil // nothing has been left in the new directory by an earlier step
 		}
+		restoreDir := func() {}
+		if step["nodir"] == true {
+			// the efivars directory does not exist (efivarfs not mounted): the write fails at its one open and touches nothing
+			saved := dir
+			dir = "/verif-not-mounted/efivars"
+			attributes.Efivars = dir
+			r.strictDir = true
+			restoreDir = func() { dir = saved; attributes.Efivars = saved; r.strictDir = false }
+		}
 		v := step["var"].(M)
 		name, gid := str(v, "name"), str(v, "guid")
 		want := attrMask(list(v, "attrs"))
@@ -149,7 +158,7 @@ func runVario(sc M) {
 		pre := M{"present": false, "attrs": []string{}, "val": "absent", "len": 0}
 		if again {
 			pre = lastPre
-		} else if st, ok := step["stored"].(M); ok {
+		} else if st, ok := step["stored"].(M); ok && step["nodir"] != true {
 			var content []byte
 			if str(st, "kind") == "short" {
 				n := num(st, "rawlen")
@@ -265,6 +274,7 @@ func runVario(sc M) {
 			end["panic"] = o.Panic
 		}
 		emit(end)
+		restoreDir()
 	}
 	_ = util.SizeofEFIGUID
 	_ = bytes.MinRead
